@@ -111,7 +111,12 @@ def shaped(ctx, g):
         if p["kind"] == "struct":
             p["ptr"] = True
     out.append(("nilbody", i, calls_for(g, i, 2, nil_struct=1.0)))
-    # Out: clean fatals and the alias ambiguity
+    # Rejected: two parameters with the same alias (62d8144: diagnosed, exit 1, no file)
+    for verb in ("GET", "PUT"):
+        i = g.iface(name="Client", nmethods=2, ctx=True, verb=verb, nscalar=3, nph=1)
+        make_dup_alias(rng, i["methods"][-1])
+        out.append(("dupalias" + verb.lower(), i, calls_for(g, i, 1)))
+    # Out: clean fatals
     i = g.iface(name="Client", nmethods=1, ctx=True, verb="GET", struct=True)
     s2 = g.struct("same")
     i["structs"].append(s2)
@@ -152,10 +157,27 @@ def gen_cases(ctx):
     return cases
 
 
+def make_dup_alias(rng, m):
+    """give two scalar parameters of m the same alias; returns False when m has fewer than two scalars"""
+    scalars = [p["name"] for p in m["params"] if p["kind"] == "scalar"]
+    if len(scalars) < 2:
+        return False
+    aliased = dict(m["alias"])
+    a = next((p for p in scalars if p in aliased), None)
+    if a is None:
+        a = scalars[0]
+        aliased[a] = "dup_w"
+        m["alias"].append((a, "dup_w"))
+    b = next(p for p in scalars if p != a)
+    m["alias"] = [(k, v) for k, v in m["alias"] if k != b] + [(b, aliased[a])]
+    rng.shuffle(m["alias"])
+    return True
+
+
 def perturb(rng, i):
     """push a random interface into the finding regions (the model must still predict the implementation exactly)"""
     kw = {}
-    for what in rng.sample(["mixed", "nostruct", "ptrdict", "twodicts", "qual", "nilstruct", "brace"], rng.choice([1, 1, 2])):
+    for what in rng.sample(["mixed", "nostruct", "ptrdict", "twodicts", "qual", "nilstruct", "brace", "dupalias"], rng.choice([1, 1, 2])):
         ms = i["methods"]
         m = rng.choice(ms)
         qverb = m["verb"] not in restgen.BODY_VERBS
@@ -172,6 +194,8 @@ def perturb(rng, i):
             m["params"].append({"name": "more", "kind": "dict", "type": "map[string]string", "ptr": False, "role": "dict"})
         elif what == "qual" and qverb and "wait" not in used and not any(p["kind"] == "struct" for p in m["params"]):
             m["params"].append({"name": "wait", "kind": "qual", "type": "time.Duration", "ptr": False, "role": "query"})
+        elif what == "dupalias":
+            make_dup_alias(rng, m)
         elif what == "nilstruct":
             kw["nil_struct"] = 0.6
         elif what == "brace":
@@ -181,10 +205,15 @@ def perturb(rng, i):
 
 def classify_gen(r):
     run = r["runs"][0]
-    if run["rc"] != 0 or not any(k.endswith(".go") for k in r["written"]):
-        if "format source" in run["stderr"] + run["stdout"]:
-            return "format"
-        return "fatal"
+    wrote = any(k.endswith(".go") for k in r["written"])
+    if run["rc"] != 0:
+        # a clean failure: diagnostic, exit 1, nothing written
+        kind = "format" if "format source" in run["stderr"] + run["stdout"] else "fatal"
+        if "panic:" in run["stderr"] or "goroutine " in run["stderr"]:
+            kind = "panic"
+        return kind + ("+file" if wrote else "")
+    if not wrote:
+        return "nofile"
     if r["compile"] != "ok":
         return "nocompile"
     return "ok"
